@@ -188,6 +188,10 @@ def run_race(i):
         if not m1:
             res["inconclusive"] = "race driver printed nothing: " + r.err[-200:]; return res
         w, rf = int(m1.group(1)), int(m1.group(2))
+        if w <= 1 and w + rf < n:
+            # some racer had not reported when the driver's watchdog expired
+            # (loaded machine): nothing can be concluded from this run
+            res["inconclusive"] = "only %d of %d racers reported" % (w + rf, n); return res
         if w != 1 or rf != n - 1:
             res["viol"].append(("proc-init-not-exactly-once", "%d threads raced ovni_proc_init: %d returned, %d refused"
                                 % (n, w, rf), {"stdout": r.out}))
@@ -196,6 +200,8 @@ def run_race(i):
             res["viol"].append(("refusal-without-diagnostic", "%d refusals, %d diagnostics" % (rf, ndiag), {}))
         if m2:
             w2, rf2 = int(m2.group(1)), int(m2.group(2))
+            if w2 <= 1 and w2 + rf2 < n:
+                res["inconclusive"] = "only %d of %d fini racers reported" % (w2 + rf2, n); return res
             if w2 != 1 or rf2 != n - 1:
                 res["viol"].append(("proc-fini-not-exactly-once", "%d threads raced ovni_proc_fini: %d returned, %d refused"
                                     % (n, w2, rf2), {"stdout": r.out}))
